@@ -80,9 +80,11 @@ def main(tier, seed):
         from . import modscope
         modscope.W = scopes.W
         modscope.part_c05(chk, tier, jobs, oracle)
+        modscope.part_c05_types(chk, tier, jobs, oracle)
     finally:
         oracle.close(); scopes.W.cleanup()
     chk.assumptions += [
+        'qualified type names: def::semantics::classify_type_name under-constrained: an answer taken from the current module\'s own type scope requires that a step of the qualified lookup returned None on that path; probed through goto_definition on `shapes.Wobble` next to a local `type Wobble`',
         'module-scope kernel: def::scope::module_scope_with_map_query on its real MIR with the database havoc\'d, one module import (alias symbolic) and one unqualified import whose resolution yields a symbolic (type-import flag, definition kind) pair; that resolve_import finds the exporting module\'s public declarations is assumed (probed through goto_definition on a three-module workspace)',
         'kernel claim: the first two anchored mechanisms (expression-scope construction and innermost-first lookup) on function bodies built directly as arena data from %d templates '
         '(let chains, nested blocks, case clauses with tuple/list/spread/as/alternative/constructor/concat patterns, lambdas, use, calls, pipes, functions without parameters); every identifier is symbolic over a small pool' % len(scopes.TEMPLATES),
